@@ -50,6 +50,8 @@ CONTRACT_ENSURES = [
     ("C13.builder.leaf_bound", "elements@.len() > max_num_elements ==> shapes_ok(node_list@, max_num_elements as int)"),
     ("C13.builder.parents", "elements@.len() > max_num_elements ==> parents_ok(node_list@)"),
     ("C13.builder.single_leaf", "elements@.len() <= max_num_elements ==> node_list@.len() == 1 && node_list@[0].1 is Leaf"),
+    # build_from_node_list keys its maps by node id: ids must be pairwise distinct
+    ("C13.builder.ids_distinct", "ids_distinct(node_list@)"),
 ]
 
 LOOP_INVARIANTS = [
@@ -62,6 +64,7 @@ LOOP_INVARIANTS = [
     ("C13.builder.inv.leaf_bound", "shapes_ok(node_list@, max_num_elements as int)"),
     ("C13.builder.inv.parents", "parents_ok(node_list@)"),
     ("C13.builder.inv.pending_parents", "pending_parents_ok(pending@, node_list@)"),
+    ("C13.builder.inv.ids", "ids_ok(node_list@, pending@, id as int)"),
 ]
 LOOP_DECREASES = ("C13.builder.terminates", "weight(pending@)")
 
@@ -87,7 +90,7 @@ let ghost p0 = pending@;"""),
      """let ghost p1 = pending@;
 proof { lemma_push(p0, p1.last()); assert(p1 =~= p0.push(p1.last())); assert(p0 =~= Seq::empty()); lemma_pending_push(p0, node_list@, p1.last()); }"""),
     (r"^\s*pending\.push\(TreeElement\(id \+ 1, Node, L, Some\(id\), Some\(left\)\)\);$", 1, "after",
-     "proof { lemma_push(p1, pending@.last()); assert(pending@ =~= p1.push(pending@.last())); lemma_pending_push(p1, node_list@, pending@.last()); }"),
+     "proof { lemma_push(p1, pending@.last()); assert(pending@ =~= p1.push(pending@.last())); lemma_pending_push(p1, node_list@, pending@.last()); lemma_ids_init(node_list@, pending@); }"),
     (r"^\s*let TreeElement\(c_id, _c_type, c_side, c_maybe_parent_id, c_maybe_elems\) =$", 1, "before",
      """let ghost pend_head = pending@;
 let ghost nl_head = node_list@;
@@ -110,6 +113,7 @@ proof { lemma_weight_nonneg(pend_head); }"""),
     lemma_shapes_push(nl_head, node_list@.last(), max_num_elements as int);
     lemma_pending_grow_list(pending@, nl_head, node_list@.last());
     lemma_has_node_last(nl_head, node_list@.last());
+    lemma_ids_move(nl_head, pend_head, node_list@.last(), id as int);
 }
 let ghost q0 = pending@;"""),
     (r"^\s*pending\.push\(TreeElement\(id \+ 2, Node, R, Some\(c_id\), Some\(right\)\)\);$", 1, "after",
@@ -120,6 +124,8 @@ proof { lemma_push(q0, q1.last()); assert(q1 =~= q0.push(q1.last())); lemma_pend
     lemma_push(q1, pending@.last());
     assert(pending@ =~= q1.push(pending@.last()));
     lemma_pending_push(q1, node_list@, pending@.last());
+    lemma_ids_fresh(node_list@, q0, q1.last(), pending@.last(), id as int);
+    assert(pending@ =~= q0.push(q1.last()).push(pending@.last()));
     assert forall|i: int| 0 <= i < pending@.len() implies (#[trigger] pending@[i]).4.is_some() && elen(pending@[i]) >= 1 by {
         if i < q0.len() { assert(pending@[i] == q0[i]); }
     }
@@ -132,14 +138,15 @@ proof { lemma_push(q0, q1.last()); assert(q1 =~= q0.push(q1.last())); lemma_pend
     lemma_parents_push(nl_head, node_list@.last());
     lemma_shapes_push(nl_head, node_list@.last(), max_num_elements as int);
     lemma_pending_grow_list(pending@, nl_head, node_list@.last());
+    lemma_ids_move(nl_head, pend_head, node_list@.last(), id as int);
 }"""),
     # end of the `if ll > max` branch: facts about the root for the postcondition
     (r"^\s*\} else \{$", -1, "before",
-     "proof { lemma_parents_root(node_list@); }"),
+     "proof { lemma_parents_root(node_list@); lemma_ids_result(node_list@, pending@, id as int); }"),
     (r"^\s*node_list\.push\(TreeElement\(0, Leaf, L, None, Some\(elements\)\)\);$", 1, "before",
      "let ghost nl0 = node_list@;"),
     (r"^\s*node_list\.push\(TreeElement\(0, Leaf, L, None, Some\(elements\)\)\);$", 1, "after",
-     "proof { lemma_push(nl0, node_list@.last()); assert(node_list@ =~= nl0.push(node_list@.last())); }"),
+     "proof { lemma_push(nl0, node_list@.last()); assert(node_list@ =~= nl0.push(node_list@.last())); lemma_ids_single(node_list@); }"),
 ]
 
 WHILE_ANCHOR = r"^(\s*)while !pending\.is_empty\(\) \{$"
